@@ -1,7 +1,8 @@
 import Bng.Map
 /-
   Model of the termination path of pkg/subscriber/manager.go (Manager.CreateSession / AssignAddress /
-  TerminateSession) against an address allocator.  TerminateSession releases the manager lock between
+  TerminateSession) against an address allocator.  AssignAddress likewise drops the lock around the allocator
+  call: `abegin tag n … aresume tag` is one call with other callers' operations in the window.  TerminateSession releases the manager lock between
   marking the session as terminating (a flag of its own since fix ac0cfa4; before, Session.State, which
   five other calls overwrite) and releasing its addresses, so it is split into `begin` (check + mark),
   the allocator call, and `finish` (drop indexes, delete, emit event): every interleaving of callers at
@@ -26,15 +27,17 @@ structure M where
   allocs : AMap Nat Nat        -- ghost: successful AllocateIPv4 results per address
   ended : AMap Nat Nat         -- terminate events per name
   calls : AMap Nat (Nat × Nat) -- parked TerminateSession calls: tag → (name, address being released)
+  acalls : AMap Nat Nat        -- AssignAddress calls held inside the allocator call: tag → name
   deriving Repr
 
 def init : M :=
-  { sessions := [], byMac := [], byIp := [], owner := [], rel := [], allocs := [], ended := [], calls := [] }
+  { sessions := [], byMac := [], byIp := [], owner := [], rel := [], allocs := [], ended := [], calls := [],
+    acalls := [] }
 
 def bump (m : AMap Nat Nat) (k : Nat) : AMap Nat Nat := AMap.insert m k ((AMap.lookup m k).getD 0 + 1)
 def count (m : AMap Nat Nat) (k : Nat) : Nat := (AMap.lookup m k).getD 0
 
-inductive Res where | ok | exists_ | notfound | exhausted | busy | parked | badop
+inductive Res where | ok | exists_ | notfound | exhausted | busy | parked | badop | gone
   deriving Repr, DecidableEq
 
 /-- lowest free address of the allocator stub (10.9.0.2 … .4) -/
@@ -48,16 +51,30 @@ def create (s : M) (n mac : Nat) : M × Res :=
   else ({ s with sessions := AMap.insert s.sessions n { mac := mac, ip := none, terminating := false },
                  byMac := AMap.insert s.byMac mac n }, .ok)
 
+/-- the allocator handed out `a`, the manager found the session gone or terminating and handed it straight back
+    (fix 'AssignAddress re-validates the session after the allocator call') -/
+def bounce (s : M) (a : Nat) : M := { s with allocs := bump s.allocs a, rel := bump s.rel a }
+
+/-- AssignAddress from the allocator call on.  The first critical section found the session; the allocator call runs
+    without the manager lock; the second critical section looks the session up AGAIN: it writes the address only to a
+    session that is still there and not terminating, otherwise it gives the address back and reports failure. -/
+def assignLate (s : M) (n : Nat) : M × Res :=
+  match firstFree s.owner with
+  | none => (s, .exhausted)
+  | some a =>
+    match AMap.lookup s.sessions n with
+    | none => (bounce s a, .gone)
+    | some x =>
+      if x.terminating then (bounce s a, .gone)
+      else
+        ({ s with owner := AMap.insert s.owner a n, allocs := bump s.allocs a,
+                  sessions := AMap.insert s.sessions n { x with ip := some a },
+                  byIp := AMap.insert s.byIp a n }, .ok)
+
 def assign (s : M) (n : Nat) : M × Res :=
   match AMap.lookup s.sessions n with
   | none => (s, .notfound)
-  | some x =>
-    match firstFree s.owner with
-    | none => (s, .exhausted)
-    | some a =>
-      ({ s with owner := AMap.insert s.owner a n, allocs := bump s.allocs a,
-                sessions := AMap.insert s.sessions n { x with ip := some a },
-                byIp := AMap.insert s.byIp a n }, .ok)
+  | some _ => assignLate s n
 
 /-- first critical section of TerminateSession: find, refuse if already terminating, mark -/
 def tBegin (s : M) (n : Nat) : Except Res (M × Sess) :=
@@ -85,6 +102,8 @@ inductive Op where
   | term (n : Nat)                 -- a whole TerminateSession call
   | tbegin (tag n : Nat)           -- a TerminateSession call run up to the allocator call
   | tresume (tag : Nat)            -- the parked call runs to completion
+  | abegin (tag n : Nat)           -- an AssignAddress call run up to (into) the allocator call
+  | aresume (tag : Nat)            -- the allocator call returns and the held AssignAddress runs to its end
   | touch (n : Nat)                -- ActivateSession / SetWalledGarden / ClearWalledGarden: they write Session.State only
   deriving Repr, DecidableEq
 
@@ -111,6 +130,15 @@ def step (s : M) : Op → M × Res
   | .touch n =>
     -- the termination mark is a flag of its own (fix ac0cfa4): nothing these calls write is part of this model
     if (AMap.lookup s.sessions n).isSome then (s, .ok) else (s, .notfound)
+  | .abegin tag n =>
+    if (AMap.lookup s.acalls tag).isSome then (s, .badop) else
+    match AMap.lookup s.sessions n with
+    | none => (s, .notfound)
+    | some _ => ({ s with acalls := AMap.insert s.acalls tag n }, .parked)
+  | .aresume tag =>
+    match AMap.lookup s.acalls tag with
+    | none => (s, .badop)
+    | some n => assignLate { s with acalls := AMap.erase s.acalls tag } n
   | .tresume tag =>
     match AMap.lookup s.calls tag with
     | none => (s, .badop)
@@ -131,15 +159,23 @@ def hasAddr (s : M) (n : Nat) : Bool :=
   | some x => x.ip.isSome
   | none => false
 
-/-- Histories in which AssignAddress is only called on a session that holds no address yet.  Outside
-    this set lie the two recorded findings: KF-submgr-reassign-leak (the first address is never released)
-    and KF-submgr-assign-race (an AssignAddress while the session's termination is in progress strands the
-    new address; since fix ac0cfa4 it no longer re-enables a second termination). -/
+/-- AssignAddress would hand a second address to a live session that already holds one (on a terminating
+    session the new address is given straight back) -/
+def reassigns (s : M) (n : Nat) : Bool :=
+  match AMap.lookup s.sessions n with
+  | some x => x.ip.isSome && !x.terminating
+  | none => false
+
+/-- Histories in which AssignAddress never hands a second address to a session that holds one: judged at the moment
+    the allocator call returns (`assign`, `aresume`).  Outside this set lies the recorded finding
+    KF-submgr-reassign-leak (the first address is never released).  Assignments racing a termination — in either
+    order, at either unlock window — are INSIDE the set since the fix of KF-submgr-assign-race. -/
 def Valid : M → List Op → Prop
   | _, [] => True
   | s, op :: ops =>
     (match op with
-     | .assign n => hasAddr s n = false
+     | .assign n => reassigns s n = false
+     | .aresume tag => ∀ n, AMap.lookup s.acalls tag = some n → reassigns s n = false
      | _ => True) ∧ Valid (step s op).1 ops
 
 end Bng.SubMgr
